@@ -33,6 +33,8 @@ type FanSpec struct {
 	// win over measured ones), where the property text settles them; nil = not asserted
 	// HomePath (file fans): the paths are given in the documented "~/..." form
 	HomePath bool `json:"homePath,omitempty"`
+	// CmdTwice (cmd fans): the setPwm command carries the %pwm% placeholder twice inside one argument
+	CmdTwice bool `json:"cmdTwice,omitempty"`
 	ExpMin   *int `json:"expMin,omitempty"`
 	ExpMax *int `json:"expMax,omitempty"`
 }
@@ -248,8 +250,15 @@ func buildWorld(ctx *Ctx, sc *Scenario) *World {
 		cfg := configuration.FanConfig{ID: id, Curve: w.Curve.Id, NeverStop: sc.Fan.NeverStop,
 			Cmd: &configuration.CmdFanConfig{
 				SetPwm: &configuration.ExecConfig{Exec: filepath.Join(dir, "set.sh"), Args: []string{"%pwm%"}},
-				GetPwm: &configuration.ExecConfig{Exec: filepath.Join(dir, "get.sh")},
 			}}
+		if sc.Fan.HasPwm {
+			cfg.Cmd.GetPwm = &configuration.ExecConfig{Exec: filepath.Join(dir, "get.sh")}
+		}
+		if sc.Fan.CmdTwice {
+			// one argument "<pwm> <pwm>" (a command driving two controls): both halves must be the number
+			cmdScript(filepath.Join(dir, "set2.sh"), "a=${1%% *}; b=${1##* }; if [ \"$a\" = \"$b\" ]; then v=$a; else v=\"$1\"; fi; echo \"$v\" > "+dir+"/pwm; echo \"$v\" >> "+dir+"/writes")
+			cfg.Cmd.SetPwm = &configuration.ExecConfig{Exec: filepath.Join(dir, "set2.sh"), Args: []string{"%pwm% %pwm%"}}
+		}
 		if sc.Fan.HasRpm {
 			cfg.Cmd.GetRpm = &configuration.ExecConfig{Exec: filepath.Join(dir, "rpm.sh")}
 		}
@@ -738,6 +747,10 @@ func genFan(r *rand.Rand, kinds []string) (FanSpec, int, int) {
 	default:
 		// file and cmd fans have fixed limits 0..255
 		mn, mx = 0, 255
+		if kind == "cmd" {
+			f.HasPwm = r.Intn(3) > 0 // a third of the cmd fans are write-only (no getPwm command)
+			f.CmdTwice = r.Intn(3) == 0
+		}
 	}
 	if !f.NeverStop {
 		mn = 0
